@@ -92,6 +92,13 @@ Theorem C18_close_and_hook_at_most_once : forall dec c stream ls,
   closes s <= 1 /\ hooks s <= 1 /\ panicked s = false /\ (chan_closed s = true -> ctx_done s = true).
 Proof. exact close_and_hook_at_most_once. Qed.
 
+(** two contexts: the caller's and the listener's own (derived, with ListenForReplyTimeout); the
+    second has ended whenever the first has.  Every liveness statement below is about the DERIVED
+    context, so it covers the timeout passing while the caller's context is still alive *)
+Theorem C18_caller_ctx_implies_listen_ctx : forall dec c stream ls,
+  let s := lrun dec c (linit stream) ls in cctx_done s = true -> ctx_done s = true.
+Proof. exact caller_ctx_implies_listen_ctx. Qed.
+
 Theorem C18_finished_listener : forall dec c stream ls,
   let s := lrun dec c (linit stream) ls in
   pc s = PDone ->
@@ -144,6 +151,7 @@ Print Assumptions C18_settle_after_reply_published.
 Print Assumptions C18_one_reply_per_delivery.
 Print Assumptions C18_processed_accepted.
 Print Assumptions C18_close_and_hook_at_most_once.
+Print Assumptions C18_caller_ctx_implies_listen_ctx.
 Print Assumptions C18_finished_listener.
 Print Assumptions C18_listener_steps_bounded.
 Print Assumptions C18_listener_never_blocked.
@@ -158,6 +166,18 @@ Example C18_witness_fixed :
   (pc s, got s, buf s, chan_closed s, hooks s, closes s, quiescent d10_dec (d10_cfg true) s,
    listener_ok d10_dec (d10_cfg true) d10_stream (obs_of s))
   = (PDone, [ROwn 1 None 1], [ROwn 2 None 2], true, 1, 1, true, true).
+Proof. reflexivity. Qed.
+
+(** non-vacuity: ListenForReplyTimeout passes while the caller's context is alive and the caller is
+    not reading, two replies: the second send is abandoned, the final reply skipped, the listener
+    finishes; without a configured timeout the ETimeout label is not enabled at all *)
+Example C18_witness_timeout_caller_alive :
+  let s := lrun d10_dec (d10_cfg true) (linit d10_stream)
+             [LRecv; LSend; LRecv; ETimeout; LCtx; LCtx; LSkip; LCancel; LClose; LHook] in
+  (pc s, cctx_done s, ctx_done s, got s, buf s, chan_closed s, hooks s,
+   listener_ok d10_dec (d10_cfg true) d10_stream (obs_of s),
+   ctx_done (lrun d10_dec (Cfg true 7 true false) (linit d10_stream) [ETimeout]))
+  = (PDone, false, true, [], [ROwn 1 None 1], true, 1, true, false).
 Proof. reflexivity. Qed.
 
 (** non-vacuity: foreign and malformed notifications between two own ones; the caller drains *)
